@@ -1,5 +1,6 @@
 import CMacVerif.Lemmas.RecombBounds
 import CMacVerif.Lemmas.Planck
+import CMacVerif.Model.Notation
 /-!
 # C18 — atomic data and sampled photon frequencies are physical
 
@@ -16,7 +17,7 @@ implementation): finiteness in IEEE arithmetic, and that the tabulated cumulativ
 are those of the physical spectra (the samplers are proved to invert their tables).
 -/
 namespace CMacVerif.C18
-open CMacVerif CMacVerif.Verner CMacVerif.Gen.Verner CMacVerif.Locate CMacVerif.Planck
+open CMacVerif CMacVerif.Verner CMacVerif.Gen.Verner CMacVerif.Locate CMacVerif.Planck CMacVerif.Notation
 
 /-! ## photoionization cross sections -/
 
@@ -305,6 +306,41 @@ example : (3.288465385e15 : ℝ) ≤
       (pLogCdf rc 6.62607004e-34 1.38064852e-23 4e4 1000) (pLogFreq rc 1000) 1000 :=
   (planck_spectrum_in_range 6.62607004e-34 1.38064852e-23 4e4 1000 (by norm_num) (by norm_num) (by norm_num)
     (by norm_num) (by norm_num) (1 / 2) (by norm_num) (by norm_num)).1
+
+/-- **A photon frequency given in a parameter file**: what `to_SI<QUANTITY_FREQUENCY>` returns for
+the notations of a spectrum parameter is `value·unit` for a frequency, `E/h` for an energy and
+`c/λ` for a wavelength; hence all notations of one physical value (same kind: equal `value·unit`;
+a wavelength `λ` and the energy `h c/λ`) denote one and the same frequency. -/
+theorem notations_of_one_value_agree :
+    (∀ (u : FUnit) (v : ℝ), frequencyOf u v =
+      match u.kind with
+      | .frequency => v * u.scale
+      | .energy => v * u.scale / planck
+      | .length => lightspeed / (v * u.scale)) ∧
+    (∀ (u₁ u₂ : FUnit) (v₁ v₂ : ℝ), u₁.kind = u₂.kind → v₁ * u₁.scale = v₂ * u₂.scale →
+      frequencyOf u₁ v₁ = frequencyOf u₂ v₂) ∧
+    (∀ lam : ℝ, 0 < lam → frequencyOf .m lam = frequencyOf .J (planck * lightspeed / lam)) := by
+  have one : (1.0 : ℝ) = 1 := by norm_num
+  have hform : ∀ (u : FUnit) (v : ℝ), frequencyOf u v =
+      match u.kind with
+      | .frequency => v * u.scale
+      | .energy => v * u.scale / planck
+      | .length => lightspeed / (v * u.scale) := by
+    intro u v
+    unfold frequencyOf
+    cases u.kind <;> simp only [one] <;> ring
+  refine ⟨hform, ?_, ?_⟩
+  · intro u₁ u₂ v₁ v₂ hk h
+    rw [hform, hform, hk]
+    cases u₂.kind <;> simp only [h]
+  · intro lam hl
+    rw [hform, hform]
+    have hp : (planck : ℝ) ≠ 0 := by unfold planck; norm_num
+    simp only [FUnit.kind, FUnit.scale, one]
+    field_simp
+
+example : frequencyOf .angstrom (700 : ℝ) = frequencyOf .cm (7e-6 : ℝ) :=
+  notations_of_one_value_agree.2.1 .angstrom .cm 700 7e-6 rfl (by simp only [FUnit.scale]; norm_num)
 
 /-- **Linear samplers in range** (helium two-photon continuum, masked spectrum): for
 `cdf 0 < u ≤ cdf (n-1)` the frequency lies in `[freq 0, freq (n-1)]`. -/
